@@ -38,6 +38,7 @@ import (
 	"sync/atomic"
 	"time"
 
+	"github.com/krotik/ecal/config"
 	"github.com/krotik/ecal/interpreter"
 	"github.com/krotik/ecal/parser"
 	"github.com/krotik/ecal/util"
@@ -154,6 +155,22 @@ func (d *recDebugger) VisitStepOutState(node *parser.ASTNode, vs parser.Scope, t
 		d.note(tid, "x"+strconv.Itoa(c15Pos(node)))
 	}
 	return d.ECALDebugger.VisitStepOutState(node, vs, tid, soErr)
+}
+
+func (d *recDebugger) RecordThreadFinished(tid uint64) {
+	d.note(tid, "f")
+	d.ECALDebugger.RecordThreadFinished(tid)
+}
+
+func (d *recDebugger) tids() []uint64 {
+	d.mu.Lock()
+	defer d.mu.Unlock()
+	var out []uint64
+	for t := range d.traces {
+		out = append(out, t)
+	}
+	sort.Slice(out, func(i, j int) bool { return out[i] < out[j] })
+	return out
 }
 
 func (d *recDebugger) trace(tid uint64) []string {
@@ -385,6 +402,7 @@ type c15Run struct {
 	payload string
 	life    string // life-cycle mode (L cases): src = library, mainSrc = main program
 	mainSrc string
+	workers int // > 0: sink program, the processor runs with that many pool workers
 }
 
 const c15Source = "t"
@@ -429,6 +447,10 @@ var c15Cmds = map[byte]string{'R': "resume", 'I': "stepin", 'O': "stepover", 'U'
 // round of suspensions with StopThreads once all threads are reported suspended.
 func c15Debugged(c *c15Run, kill bool) (threads []*c15Thread, lg *memLog, rec *recDebugger, hang bool) {
 	lg = &memLog{}
+	if c.workers > 0 {
+		config.Config[config.WorkerCount] = c.workers
+		defer func() { config.Config[config.WorkerCount] = 4 }()
+	}
 	erp := interpreter.NewECALRuntimeProvider("t", nil, lg)
 	defer erp.Cron.Stop()
 	sched := &c15Sched{mode: c.timing, rng: NewRand(c.seed), isTid: map[interface{}]uint64{},
@@ -489,6 +511,10 @@ func c15Debugged(c *c15Run, kill bool) (threads []*c15Thread, lg *memLog, rec *r
 					func() { erp.Debugger = rec; rec.setOn(true) },
 					func() { erp.Debugger = nil; rec.setOn(false) },
 					func(a *parser.ASTNode) { c15WrapLiterals(a, rec) })
+			} else if c.workers > 0 {
+				// addEvent starts the processor (rules can only be added while it is stopped)
+				t.res, t.err = ast.Runtime.Eval(t.vs, make(map[string]interface{}), t.tid)
+				erp.Processor.Finish() // waits until every event has been processed
 			} else {
 				t.res, t.err = ast.Runtime.Eval(t.vs, make(map[string]interface{}), t.tid)
 			}
@@ -505,10 +531,39 @@ func c15Debugged(c *c15Run, kill bool) (threads []*c15Thread, lg *memLog, rec *r
 		}
 		return true
 	}
+	if c.timing == "toggle" {
+		// a second controller edits break points on lines the program never executes while the
+		// threads run: the answer of the model is unchanged, the process must survive
+		stopToggle := make(chan struct{})
+		defer close(stopToggle)
+		for w := 0; w < 2; w++ {
+			go func(w int) {
+				for k := w; ; k++ {
+					select {
+					case <-stopToggle:
+						return
+					default:
+					}
+					l := 900 + k%7
+					switch k % 4 {
+					case 0:
+						dbg.SetBreakPoint(c15Source, l)
+					case 1:
+						dbg.DisableBreakPoint(c15Source, l)
+					case 2:
+						dbg.SetBreakPoint("other", l)
+					default:
+						dbg.RemoveBreakPoint(c15Source, l)
+					}
+				}
+			}(w)
+		}
+	}
 	// the controller
 	last := time.Now()
 	ctlRng := NewRand(c.seed + 77)
 	stopped := false
+	var workersSeen []*c15Thread
 	var stuckSince time.Time
 	spins := 0
 	idle := func() {
@@ -582,6 +637,14 @@ func c15Debugged(c *c15Run, kill bool) (threads []*c15Thread, lg *memLog, rec *r
 		spins = 0
 		for _, id := range suspended {
 			t := byTid[id]
+			if t == nil && c.workers > 0 {
+				// a pool worker: known to the debugger only
+				wt, _ := strconv.ParseUint(id, 10, 64)
+				t = &c15Thread{tid: wt, ended: make(chan struct{})}
+				close(t.ended)
+				byTid[id] = t
+				workersSeen = append(workersSeen, t)
+			}
 			if t == nil {
 				continue
 			}
@@ -614,6 +677,7 @@ func c15Debugged(c *c15Run, kill bool) (threads []*c15Thread, lg *memLog, rec *r
 			last = time.Now()
 		}
 	}
+	threads = append(threads, workersSeen...)
 	return threads, lg, rec, hang
 }
 
@@ -685,10 +749,16 @@ func c15Plain(src string) (string, []string, []string) {
 //	A2: parse lib, main | P1 P2 | attach | P3
 //	A3: attach | parse lib, main | P1 | detach | P2 | attach | P3
 //	A4: parse lib, main | attach | P1 P2
+//	A5: parse lib, main | P1 P2, the program itself attaches the debugger by calling x.attach()
+//	    INSIDE a function call (the debugger then sees the return of calls it never saw start)
 //
 // The result is the list of the phases' results.
 func c15Life(mode string, erp *interpreter.ECALRuntimeProvider, lib, main string, vs parser.Scope, tid uint64,
 	attach, detach func(), wrap func(*parser.ASTNode)) (interface{}, error) {
+	if mode == "A5" {
+		c15AttachHook = attach
+		defer func() { c15AttachHook = nil }()
+	}
 	var libAst, mainAst *parser.ASTNode
 	var results []interface{}
 	var firstErr error
@@ -718,7 +788,7 @@ func c15Life(mode string, erp *interpreter.ECALRuntimeProvider, lib, main string
 		results = append(results, []interface{}{res, e})
 	}
 	for _, step := range strings.Split(map[string]string{
-		"A0": "a,l,m,1,2", "A1": "l,1,a,m,2", "A2": "l,m,1,2,a,3", "A3": "a,l,m,1,d,2,a,3", "A4": "l,m,a,1,2",
+		"A0": "a,l,m,1,2", "A1": "l,1,a,m,2", "A2": "l,m,1,2,a,3", "A3": "a,l,m,1,d,2,a,3", "A4": "l,m,a,1,2", "A5": "l,m,1,2",
 	}[mode], ",") {
 		switch step {
 		case "a":
@@ -737,6 +807,9 @@ func c15Life(mode string, erp *interpreter.ECALRuntimeProvider, lib, main string
 	}
 	return results, firstErr
 }
+
+// c15AttachHook is what the stdlib function x.attach() does in the running case.
+var c15AttachHook func()
 
 // c15LifePlain: the reference outcome (no debugger at all) and the visit trace of the phases
 // in which the mode has the debugger attached — recorded with a debugger that is attached
@@ -791,6 +864,159 @@ func c15RunL(f []string, payload string) string {
 		r = "HANG-suspended-thread-not-released " + r
 	}
 	CountRun("L." + c.life)
+	return r
+}
+
+// c15RunZ: n threads run (and may arrive at break points) while a controller calls StopThreads
+// over and over: every thread must end (killed or finished) and the process must survive.
+func c15RunZ(f []string, payload string) string {
+	n, _ := strconv.Atoi(f[0])
+	src := unhx(f[2])
+	erp := interpreter.NewECALRuntimeProvider("t", nil, &memLog{})
+	defer erp.Cron.Stop()
+	dbg := interpreter.NewECALDebugger(newGlobalScope())
+	erp.Debugger = dbg
+	dbg.BreakOnError(false)
+	for _, op := range c15List(f[1], ",") {
+		c15ApplyOp(dbg, op)
+	}
+	ast, err := parser.ParseWithRuntime(c15Source, src, erp)
+	if err == nil {
+		err = ast.Runtime.Validate()
+	}
+	if err != nil {
+		return "bad-program"
+	}
+	// every worker evaluates the program `rounds` times, each time as a new thread (a killed
+	// thread ends its goroutine): interrogation states are created and removed all the time
+	rounds := 1
+	if len(src) < 200 {
+		rounds = 120
+	}
+	var wg sync.WaitGroup
+	for i := 0; i < n; i++ {
+		wg.Add(1)
+		go func() {
+			defer wg.Done()
+			for r := 0; r < rounds; r++ {
+				tid := erp.NewThreadID()
+				one := make(chan struct{})
+				go func() {
+					defer close(one)
+					defer func() { recover() }()
+					ast.Runtime.Eval(newGlobalScope(), make(map[string]interface{}), tid)
+				}()
+				<-one
+			}
+		}()
+	}
+	done := make(chan struct{})
+	go func() { wg.Wait(); close(done) }()
+	deadline := time.After(30 * time.Second)
+	for k := 0; ; k++ {
+		select {
+		case <-done:
+			CountRun("Z")
+			return fmt.Sprintf("ended=%d", n)
+		case <-deadline:
+			return "HANG-stopthreads-did-not-release"
+		default:
+		}
+		dbg.StopThreads(0)
+		if k%16 == 0 {
+			runtime.Gosched()
+		}
+	}
+}
+
+// c15SinkProgram: a sink with the given body lines, `events` events of its kind.
+func c15SinkProgram(body []string, events int) string {
+	lines := []string{"func h(a) {", "    return a * 2", "}", "sink s1", "    kindmatch [ \"ev.a\" ],", "    {"}
+	for _, b := range body {
+		lines = append(lines, "        "+b)
+	}
+	lines = append(lines, "    }", "for i in range(1, "+strconv.Itoa(events)+") {", "    addEvent(\"e\", \"ev.a\", {\"n\": i})", "}", "events := "+strconv.Itoa(events))
+	return strings.Join(lines, "\n")
+}
+
+// c15SinkPlain runs a sink program without debugger (reference) or with the recording wrapper.
+func c15SinkRun(src string, workers int, rec *recDebugger) (string, []string) {
+	config.Config[config.WorkerCount] = workers
+	defer func() { config.Config[config.WorkerCount] = 4 }()
+	lg := &memLog{}
+	erp := interpreter.NewECALRuntimeProvider("t", nil, lg)
+	defer erp.Cron.Stop()
+	if rec != nil {
+		erp.Debugger = rec
+	}
+	vs := newGlobalScope()
+	ast, err := parser.ParseWithRuntime(c15Source, src, erp)
+	if err == nil {
+		err = ast.Runtime.Validate()
+	}
+	if err != nil {
+		return c15Outcome(nil, err, vs), nil
+	}
+	res, err := ast.Runtime.Eval(vs, make(map[string]interface{}), erp.NewThreadID())
+	erp.Processor.Finish()
+	logs := append([]string(nil), lg.lines...)
+	sort.Strings(logs)
+	return c15Outcome(res, err, vs), logs
+}
+
+// c15SinkBodyTrace: the visit trace of ONE execution of the sink body (1 worker, 1 event).
+func c15SinkBodyTrace(body []string) []string {
+	dbg := interpreter.NewECALDebugger(newGlobalScope())
+	dbg.BreakOnError(false)
+	rec := newRecDebugger(dbg)
+	c15SinkRun(c15SinkProgram(body, 1), 1, rec)
+	tids := rec.tids()
+	if len(tids) < 2 {
+		return nil
+	}
+	// the main thread has the lowest id; the worker's trace is the sink body
+	var out []string
+	for _, e := range rec.trace(tids[len(tids)-1]) {
+		if e != "f" {
+			out = append(out, e)
+		}
+	}
+	return out
+}
+
+func c15RunS(f []string, payload string) string {
+	workers, _ := strconv.Atoi(f[0])
+	c := &c15Run{src: unhx(f[5]), n: 1, workers: workers, bpops: c15List(f[2], ","), script: c15List(f[3], ","),
+		timing: "poll", seed: 1, payload: payload}
+	plain, plainLog := c15SinkRun(c.src, workers, nil)
+	if os.Getenv("C15_DEBUG") != "" {
+		fmt.Fprintln(os.Stderr, "plain:", plain, plainLog)
+	}
+	threads, lg, rec, hang := c15Debugged(c, false)
+	same := 1
+	got := append([]string(nil), lg.lines...)
+	sort.Strings(got)
+	t := threads[0]
+	if !hang && (!t.normal || c15Outcome(t.res, t.err, t.vs) != plain || strings.Join(plainLog, "\n") != strings.Join(got, "\n")) {
+		same = 0
+	}
+	total := 0
+	for _, th := range threads {
+		total += len(th.susp)
+	}
+	// the per-thread traces (visits, `!` = reported suspension, `f` = thread finished) for mode vt
+	for _, tid := range rec.tids() {
+		c15Side(&c15VtFile, "c15-vt", "00 "+f[2]+" "+f[3]+" "+c15TraceStr(rec.trace(tid))+"\t"+payload)
+		CountRun("vt.traces")
+	}
+	CountRun("S")
+	r := fmt.Sprintf("same=%d susp=%d", same, total)
+	if f[3] != "-" {
+		r = fmt.Sprintf("same=%d susp=any", same)
+	}
+	if hang {
+		r = "HANG-suspended-thread-not-released " + r
+	}
 	return r
 }
 
@@ -854,8 +1080,9 @@ func c15RunD(f []string, payload string) string {
 }
 
 func c15RunK(f []string, payload string) string {
-	n, _ := strconv.Atoi(f[0])
-	c := &c15Run{src: unhx(f[3]), n: n, bpops: c15List(f[1], ","), timing: "poll", seed: 1, payload: payload}
+	boe := strings.HasSuffix(f[0], "e")
+	n, _ := strconv.Atoi(strings.TrimSuffix(f[0], "e"))
+	c := &c15Run{src: unhx(f[3]), n: n, boe: boe, bpops: c15List(f[1], ","), timing: "poll", seed: 1, payload: payload}
 	threads, _, _, hang := c15Debugged(c, true)
 	released, killed, fin := 0, 0, 0
 	anySusp := false
@@ -1331,6 +1558,12 @@ func init() {
 			return 2
 		},
 		Setup: func() {
+			registerX("attach", func(args []interface{}) (interface{}, error) {
+				if h := c15AttachHook; h != nil {
+					h()
+				}
+				return nil, nil
+			})
 			if c15HooksPresent() {
 				CountRun("hooks.present")
 			} else {
@@ -1382,7 +1615,12 @@ func init() {
 				}
 				// StopThreads
 				g.Count("K")
-				g.Emit(fmt.Sprintf("K %d %s %s %s", 1+r.Intn(4), c15BpOps(r, nLines, visited), c15TraceStr(trace), hx(src)))
+				kn := strconv.Itoa(1 + r.Intn(4))
+				if r.Intn(3) == 0 && c15PhantomFree(trace) {
+					kn += "e" // StopThreads with breakOnError on
+					g.Count("K.boe")
+				}
+				g.Emit(fmt.Sprintf("K %s %s %s %s", kn, c15BpOps(r, nLines, visited), c15TraceStr(trace), hx(src)))
 			}
 			for _, d := range c15Directed {
 				_, _, trace := c15Plain(d[0])
@@ -1391,10 +1629,68 @@ func init() {
 					g.Emit(fmt.Sprintf("D 1 00 %s %s %s 1 %s %s", d[1], d[2], timing, c15TraceStr(trace), hx(d[0])))
 				}
 			}
+			// sink programs on pool workers: more events than workers, break points in one-line and
+			// multi-line sink bodies (body lines start at line 7)
+			bodies := [][]string{
+				{"log(\"s\", event.state.n)"},
+				{"x := event.state.n", "log(\"s\", x)"},
+				{"x := h(event.state.n)", "y := x + 1", "log(\"s\", y)"},
+				{"x := event.state.n", "if x > 2 {", "    x := h(x)", "}", "log(\"s\", x)"},
+			}
+			for bi, body := range bodies {
+				bt := c15SinkBodyTrace(body)
+				for w := 1; w <= 4; w++ {
+					for _, ev := range []int{1, w + 2, 12} {
+						if !g.Thorough() && (w+bi+ev)%2 == 1 {
+							continue
+						}
+						bp := "s7"
+						if len(body) > 1 && (w+ev)%2 == 0 {
+							bp = "s7,s" + strconv.Itoa(6+len(body))
+						}
+						script := "-"
+						if (w+ev+bi)%5 == 0 {
+							script = []string{"I,R,O", "O,U,R,I", "I,I,I"}[(w+bi)%3]
+						}
+						g.Count("S.workers." + strconv.Itoa(w))
+						g.Emit(fmt.Sprintf("S %d %d %s %s %s %s", w, ev, bp, script, c15TraceStr(bt), hx(c15SinkProgram(body, ev))))
+					}
+				}
+			}
+			// concurrent controllers: break point edits / StopThreads WHILE n >= 4 threads run in
+			// tight loops (a process death is the result CRASH)
+			loops := []string{
+				"s := 0\nfor i in range(1, 4000) {\n    s := s + i\n}\ns",
+				"func f(a) {\n    return a + 1\n}\ns := 0\nfor i in range(1, 1500) {\n    s := f(s)\n}\ns",
+			}
+			for li, src := range loops {
+				_, _, trace := c15Plain(src)
+				reps := 3
+				if g.Thorough() {
+					reps = 12
+				}
+				for k := 0; k < reps; k++ {
+					n := 4 + (k+li)%3
+					g.Count("D.toggle")
+					// the visit trace is long: the model only needs to know that no break point lies on it
+					short := trace
+					if len(short) > 40 {
+						short = short[:40]
+					}
+					g.Emit(fmt.Sprintf("D %d 00 s950,d951 - toggle %d %s %s", n, k, c15TraceStr(short), hx(src)))
+					g.Count("Z")
+					bp := []string{"s1,s2", "s1", "s2,s3", "s1,s3"}[k%4]
+					g.Emit(fmt.Sprintf("Z %d %s %s", n, bp, hx("a := 1\nb := a + 1\nc := b + 1\nc")))
+				}
+			}
 			// life cycle: code loaded in steps, the debugger attached at different points; break
 			// points in code parsed before and after the attach point; sources "lib" and "main"
 			emitL := func(lib, main string, r *Rand, bpops, script string) {
-				for _, mode := range []string{"A0", "A1", "A2", "A3", "A4"} {
+				modes := []string{"A0", "A1", "A2", "A3", "A4"}
+				if strings.Contains(lib, "x.attach()") {
+					modes = []string{"A5"}
+				}
+				for _, mode := range modes {
 					_, _, trace := c15LifePlain(mode, lib, main)
 					if len(trace) > 1200 {
 						g.Count("skipped.long-trace")
@@ -1437,6 +1733,9 @@ func init() {
 			}
 			emitL("func f(a) {\n    b := a + 1\n    return b * 2\n}\nlibv := 5", "x := f(1)\ny := f(x) + libv\n[x, y]", NewRand(5), "s1002,s2002", "R,R,R,R,R,R")
 			emitL("func f(a) {\n    b := a + 1\n    return b * 2\n}\nlibv := 5", "x := f(1)\ny := f(x) + libv\n[x, y]", NewRand(6), "s1003,s1005,s2001", "I,O,U,R,I,I,O,R")
+			attLib := "\nfunc att(a) {\n    b := a + 1\n    x.attach()\n    c := b + 1\n    return c\n}\nfunc att2(a) {\n    d := att(a)\n    return d + 1\n}"
+			emitL("libv := 5"+attLib, "q := att(1)\nr := att2(q)\n[q, r]", NewRand(7), "s1005,s2002", "R,R,R,R")
+			emitL("libv := 5"+attLib, "q := att2(1)\nr := att(q)\n[q, r]", NewRand(8), "s1005,s1006,s2002", "I,U,O,R,R,R")
 			nLife := 40
 			if g.Thorough() {
 				nLife = 600
@@ -1447,6 +1746,9 @@ func init() {
 					lib = "libv := 1"
 				}
 				emitL(lib, main, g.R, "", "")
+				if i%3 == 0 {
+					emitL(lib+attLib, "q0 := "+[]string{"att", "att2"}[i%2]+"(1)\n"+main, g.R, "", "")
+				}
 			}
 			for i, src := range c15Corpus {
 				emitD(src, NewRand(uint64(1000+i)), true)
@@ -1464,6 +1766,10 @@ func init() {
 				return c15RunK(f[1:], payload)
 			case f[0] == "L" && len(f) == 8:
 				return c15RunL(f[1:], payload)
+			case f[0] == "Z" && len(f) == 4:
+				return c15RunZ(f[1:], payload)
+			case f[0] == "S" && len(f) == 7:
+				return c15RunS(f[1:], payload)
 			}
 			return "bad-payload"
 		},
